@@ -20,7 +20,7 @@ META = {
  'C04': dict(technique=DED + ': loop invariants with quantified facts for fix_measurements, exactly-once grouping in _setup, relational clause that _lipschitz and _setup select the same clique; loss and gradient of _marginal_loss in the one-cell instance (gradient term = derivative of loss term, both metrics); the n-dimensional formulas by bounded finite differences',
              ded='fix_measurements: same length and order, proj str/list/tuple normalised, None -> identity of the right size, y and noise untouched (forall k, by loop invariant). '
                  '_setup: each measurement appended to at most one group, as itself, under the first containing clique of the size-sorted clique list. '
-                 '_lipschitz: each measurement accumulated at most once under the first containing clique of the same sorted list (hence the same clique as _setup). '
+                 '_lipschitz: each measurement accumulated at most once under the first containing clique of the same sorted list (hence the same clique as _setup), and what is added is lambda_max(Q_k^T Q_k)*|clique|/|proj|/noise_k^2 computed from that measurement\'s own matrix (value-level: real arithmetic, so equivalent spellings verify). '
                  '_marginal_loss in the one-cell instance (all operands 1x1): loss = sum 0.5((Qx-y)/noise)^2 resp. sum |Qx-y|/noise and each gradient contribution is its derivative, for all real Q, x, y, noise > 0, any number of cliques and measurements (loop invariants); a refuted instance is replayed on the real method with 1x1 arrays against a finite difference.',
              trusted=['sorted / set / sparse.eye / domain.size are deterministic callees', 'L-spec (eigenvalue sub-additivity and the marginalisation bound) turning the per-clique sums into a Hessian bound: assumed, exercised bounded']),
  'C05': dict(level='proof', technique=DED + ': ghost privacy ledger (zCDP / pure-DP) as postcondition and loop invariant of every mechanism function, sensitivities as ghost attributes of private values',
